@@ -527,27 +527,50 @@ _RESETTERS = []
 
 
 def discover_state():
-    """Find module-level caches and class-level mutable defaults in the loaded mingus modules."""
+    """Find every piece of module-level and class-level state in the loaded mingus modules: memo tables (reset to
+    empty = cold), the fft position memory, class-level mutable defaults, and - generically - every other
+    module-level dict/list/set (snapshot, restored in place when its size changed) and every module-level scalar
+    or tuple (restored when rebound).  A memo table added by a change to the repo is therefore reset between paths
+    like the known ones, and the warm/cold claims (vf.claim.warm_cold) can put it into its initial state."""
+    import copy
+
     del _RESETTERS[:]
     found = []
     for name, mod in list(sys.modules.items()):
         if not name.startswith("mingus") or mod is None:
             continue
         for attr, val in list(vars(mod).items()):
-            if attr.startswith("_") and not attr.startswith("__") and type(val) is dict and attr.endswith("cache"):
+            if attr.startswith("__"):
+                continue
+            if attr.startswith("_") and type(val) is dict and attr.endswith("cache"):
                 _RESETTERS.append((mod, attr, "dict", None))
                 found.append("%s.%s" % (name, attr))
-            if attr == "_last_asked":
+            elif attr == "_last_asked":
                 _RESETTERS.append((mod, attr, "value", None))
                 found.append("%s.%s" % (name, attr))
+            elif type(val) in (dict, list, set):
+                try:
+                    snap = copy.deepcopy(val)
+                except Exception:
+                    continue
+                _RESETTERS.append((mod, attr, "snap", (val, len(val), snap)))
+            elif val is None or type(val) in (int, float, str, bool, tuple, bytes):
+                _RESETTERS.append((mod, attr, "rebind", val))
             if isinstance(val, type) and val.__module__ == name:
                 for ca, cv in list(vars(val).items()):
                     if type(cv) in (list, dict) and not ca.startswith("__"):
-                        import copy
-
                         _RESETTERS.append((val, ca, "copy", copy.deepcopy(cv)))
                         found.append("%s.%s.%s" % (name, val.__name__, ca))
+    _discovered[0] = True
     return found
+
+
+_discovered = [False]
+
+
+def ensure_state():
+    if not _discovered[0]:
+        discover_state()
 
 
 def reset_state():
@@ -558,6 +581,20 @@ def reset_state():
             getattr(owner, attr).clear()
         elif kind == "value":
             setattr(owner, attr, None)
+        elif kind == "rebind":
+            if getattr(owner, attr, init) is not init:
+                setattr(owner, attr, init)
+        elif kind == "snap":
+            obj, n, snap = init
+            if getattr(owner, attr, obj) is not obj:
+                setattr(owner, attr, obj)
+            if len(obj) != n:
+                fresh = copy.deepcopy(snap)
+                if type(obj) is list:
+                    obj[:] = fresh
+                else:
+                    obj.clear()
+                    obj.update(fresh)
         else:
             cur = getattr(owner, attr)
             if cur != init:
